@@ -23,7 +23,7 @@ EXPECTED_PROBES = ['eof-with-pending-text', 'eof-action', 'eof-ind', 'input-at-e
 
 class P(sb.StreamProp):
     ID = ID
-    CLASSES = {'wrap-with-pending', 'wrap-without-eof', 'read-after-eof', 'eof', 'token', 'premature', 'stream', 'bol', 'start', 'fatal', 'hang', 'input', 'phantom'}
+    CLASSES = {'sanitizer', 'crash', 'wrap-with-pending', 'wrap-without-eof', 'read-after-eof', 'eof', 'token', 'premature', 'stream', 'bol', 'start', 'fatal', 'hang', 'input', 'phantom'}
 
     def gen_scenario(self, rng):
         return scenario.gen_scenario(rng, want={'feats': ('eofrules',), 'flavors': ['nr', 'nr', 'r', 'r', 'c99', 'c99', 'cxx', 'cxx']}, forbid=('vtrail',))
